@@ -50,13 +50,11 @@ def parseInv? (s : String) : Option Inventory :=
   if s = "-" then some [] else (s.splitOn "|").mapM parseStock?
 
 /-- `name@unit:amount` -/
-def parseOp? (s : String) : Option (String × Qty) :=
+def parseOp? (s : String) : Option (String × Option Qty) :=
   match s.splitOn "@" with
   | [n, q] => do
     let q ← parseQty? q
-    match q with
-    | some q => pure (decName n, q)
-    | none => none
+    pure (decName n, q)
   | _ => none
 
 def showInv (inv : Inventory) : String :=
@@ -71,9 +69,9 @@ def showOutcome : Outcome → String
   | .notFound => "err:NotFound"
   | .conversionError => "err:Unknown"
 
-def runSeq (inv : Inventory) (ops : List (String × Qty)) : String :=
+def runSeq (inv : Inventory) (ops : List (String × Option Qty)) : String :=
   let (_, outs) := ops.foldl (fun (acc : Inventory × List String) o =>
-    let (inv', out) := dispense acc.1 o.1 o.2
+    let (inv', out) := dispenseReq acc.1 o.1 o.2
     (inv', (showOutcome out ++ " # " ++ showInv inv') :: acc.2)) (inv, [])
   " ; ".intercalate outs.reverse
 
